@@ -1085,9 +1085,15 @@ func (dns *Msg) Copy() *Msg { return dns.CopyTo(new(Msg)) }
 
 // CopyTo copies the contents to the provided message using a deep-copy and returns the copy.
 func (dns *Msg) CopyTo(r1 *Msg) *Msg {
+	if r1 == dns {
+		// The sections of r1 are re-sliced before those of dns are read.
+		return r1
+	}
+
 	r1.MsgHdr = dns.MsgHdr
 	r1.Compress = dns.Compress
 
+	r1.Question = nil
 	if len(dns.Question) > 0 {
 		// TODO(miek): Question is an immutable value, ok to do a shallow-copy
 		r1.Question = cloneSlice(dns.Question)
